@@ -7,3 +7,69 @@ Theorem c18_hidden_is_nothing : forall sd (udc : bool) (ist : list (text * text)
   process sd udc ist (NElem html name attrs kids) p idx = Ok None.
 Proof. exact hidden_is_nothing. Qed.
 Print Assumptions c18_hidden_is_nothing.
+
+(* ---------- DOM -> render tree (Proofs/Prune.v): hidden subtrees are as if deleted; document styles are inert without use_doc_css ----------
+   sheet_no_nth: no :nth-child component in any rule (deleting an element shifts the index of its later siblings: ordinary CSS semantics, counterexample ex_nth_needed). *)
+From H2T Require Import Sub Css Dom Render Api CssParse Proofs.Prune.
+Theorem computed_style_sim :
+  forall sd : styledata,
+       sheet_no_nth sd = true ->
+       forall (p p' : list anc) (inl : list styledecl),
+       Forall2 anc_sim p p' -> computed_style sd p inl = computed_style sd p' inl.
+Proof. exact Prune.computed_style_sim. Qed.
+Print Assumptions computed_style_sim.
+
+Theorem local_deletion_gen :
+  forall (sd : styledata) (udc : bool) (inl : list (text * text) -> res (list styledecl)) 
+         (html : bool) (name : text) (attrs : list (text * text)) (l1 : list node) 
+         (c : node) (l2 : list node) (p : list anc) (idx : Z),
+       is_elem c = false \/ sheet_no_nth sd = true ->
+       process sd udc inl c ({| a_name := name; a_attrs := attrs; a_idx := idx |} :: p) (1 + count_elems l1) =
+       Ok None ->
+       process sd udc inl (NElem html name attrs (l1 ++ c :: l2)) p idx =
+       process sd udc inl (NElem html name attrs (l1 ++ l2)) p idx.
+Proof. exact Prune.local_deletion_gen. Qed.
+Print Assumptions local_deletion_gen.
+
+Theorem prune_equiv :
+  forall (sd : styledata) (udc : bool) (inl : list (text * text) -> res (list styledecl)),
+       sheet_no_nth sd = true ->
+       forall doc : list node,
+       dom_to_render_tree sd udc inl doc = dom_to_render_tree sd udc inl (prune_doc sd udc inl doc).
+Proof. exact Prune.prune_equiv. Qed.
+Print Assumptions prune_equiv.
+
+Theorem prune_doc_idem :
+  forall (sd : styledata) (udc : bool) (inl : list (text * text) -> res (list styledecl)),
+       sheet_no_nth sd = true ->
+       forall doc : list node, prune_doc sd udc inl (prune_doc sd udc inl doc) = prune_doc sd udc inl doc.
+Proof. exact Prune.prune_doc_idem. Qed.
+Print Assumptions prune_doc_idem.
+
+Theorem to_render_tree_prune :
+  forall (inline_styles : list (text * text) -> res (list styledecl))
+         (doc_rules : list node -> res (list ruleset)) (c : config) (doc : list node),
+       (forall sd : styledata, effective_sd doc_rules c doc = Ok sd -> sheet_no_nth sd = true) ->
+       to_render_tree inline_styles doc_rules c doc =
+       (do sd <- effective_sd doc_rules c doc;
+        dom_to_render_tree sd (c_use_doc_css c) inline_styles
+          (prune_doc sd (c_use_doc_css c) inline_styles doc)).
+Proof. exact Prune.to_render_tree_prune. Qed.
+Print Assumptions to_render_tree_prune.
+
+Theorem nodoccss_frontend_indep :
+  forall (inl1 : list (text * text) -> res (list styledecl)) (dr1 : list node -> res (list ruleset))
+         (inl2 : list (text * text) -> res (list styledecl)) (dr2 : list node -> res (list ruleset))
+         (c : config) (doc : list node),
+       c_use_doc_css c = false -> to_render_tree inl1 dr1 c doc = to_render_tree inl2 dr2 c doc.
+Proof. exact Prune.nodoccss_frontend_indep. Qed.
+Print Assumptions nodoccss_frontend_indep.
+
+Theorem nodoccss_strip :
+  forall (inl : list (text * text) -> res (list styledecl)) (dr : list node -> res (list ruleset))
+         (inl' : list (text * text) -> res (list styledecl)) (dr' : list node -> res (list ruleset))
+         (c : config) (doc : list node),
+       c_use_doc_css c = false -> to_render_tree inl dr c doc = to_render_tree inl' dr' c (map strip doc).
+Proof. exact Prune.nodoccss_strip. Qed.
+Print Assumptions nodoccss_strip.
+
